@@ -504,6 +504,23 @@ impl<'tcx> Cx<'tcx> {
                 o.push(("trait_default", s(self.path(tr))));
             }
         }
+        // names of the generic parameters in the order of the GenericArgs of a call to this item (parents first)
+        {
+            let mut chain = vec![];
+            let mut cur = Some(did);
+            while let Some(d) = cur {
+                let g = tcx.generics_of(d);
+                chain.push(g);
+                cur = g.parent;
+            }
+            let mut names = vec![];
+            for g in chain.iter().rev() {
+                for p in &g.own_params {
+                    names.push(s(p.name.to_string()));
+                }
+            }
+            o.push(("generics", J::A(names)));
+        }
         let locals: Vec<J> = body.local_decls.iter().map(|d| self.ty(d.ty)).collect();
         o.push(("locals", J::A(locals)));
         let mut names = BTreeMap::new();
